@@ -367,7 +367,7 @@ class Algebra:
                     else:
                         out = out + Poly({((('meancols' if mean else 'sumcols') + '{%s}' % a, 1),): c})
                 else:
-                    return self.atom(('meth', 'mean' if mean else 'sum', base, (), (('axis', ('c', 1)),)))
+                    return Poly.atom(('meancols' if mean else 'sumcols') + '{%s}' % self.canon(base, top_arith=False))
             return out
         tot = Poly()
         ncols = 0
@@ -375,7 +375,7 @@ class Algebra:
             if not self.single_col(x):
                 inner = self._sumcols(x)
                 if mean:
-                    return self.atom(('meth', 'mean', base, (), (('axis', ('c', 1)),)))
+                    return Poly.atom('meancols{%s}' % self.canon(base, top_arith=False))
                 tot = tot + inner
             else:
                 tot = tot + self.poly(x)
@@ -384,21 +384,23 @@ class Algebra:
             tot = tot.scale(Fraction(1, ncols))
         return tot
 
-    def _columns(self, t):
+    def _columns(self, t, depth=0):
         """List of column-block terms if t is a concatenation along axis 1."""
+        if depth > 40:
+            return None
         if t[0] == 'call' and t[1] == 'numpy.concatenate' and t[2] and t[2][0][0] in ('tuple', 'list'):
             ax = dict(t[3]).get('axis', t[2][1] if len(t[2]) > 1 else None)
             if ax is not None and is_c(ax) and ax[1] == 1:
                 out = []
                 for x in t[2][0][1]:
-                    sub = self._columns(x)
+                    sub = self._columns(x, depth + 1)
                     out.extend(sub if sub is not None else [x])
                 return out
         if t[0] == 'call' and t[1] in ('numpy.hstack', 'numpy.column_stack') and t[2] \
                 and t[2][0][0] in ('tuple', 'list'):
             return list(t[2][0][1])
         if t[0] in ('sub',) and _shape_only_index(t[2]):
-            return self._columns(t[1])
+            return self._columns(t[1], depth + 1)
         return None
 
     def equal(self, a, b):
